@@ -390,8 +390,55 @@ func runDriverTop(c *harness.Ctx) harness.Result {
 		wantPct = new(big.Rat).Quo(tot, new(big.Rat).SetInt64(p.DurationNanos))
 		wantPct.Mul(wantPct, big.NewRat(100, 1))
 	}
+	// a comparison report: some entries are negative (and may be the ones of smallest magnitude)
+	signed := wantPct == nil && r.Intn(2) == 0
+	if signed {
+		for i, smp := range p.Sample {
+			if r.Intn(2) == 0 || i == 0 {
+				smp.Value[0] = -smp.Value[0]
+				vals[fmt.Sprintf("fn%d", i)] = smp.Value[0]
+			}
+		}
+	}
 	desc := fmt.Sprintf("-top -unit=%s on values in %q: %v", target, fs.spelling, vals)
 	res := harness.Result{NonTrivial: true, Sig: desc, Sample: desc}
+	if signed {
+		// the report of the negated profile shows the negated labels: the unit chosen for the report
+		// does not depend on the sign of the entries
+		flats := func(q *profile.Profile) (map[string]string, string) {
+			o, _, rr := drv.Report(map[string]*profile.Profile{"p": q}, []string{"p"}, map[string]bool{"top": true, "trim": false}, map[string]string{"unit": target}, nil, nil, nil)
+			if rr.Panic != "" || rr.Err != nil {
+				return nil, o
+			}
+			m := map[string]string{}
+			for _, l := range strings.Split(o, "\n") {
+				f := strings.Fields(l)
+				if len(f) >= 6 && strings.HasPrefix(f[len(f)-1], "fn") {
+					m[f[len(f)-1]] = f[0]
+				}
+			}
+			return m, o
+		}
+		neg := p.Copy()
+		for _, smp := range neg.Sample {
+			smp.Value[0] = -smp.Value[0]
+		}
+		a, outA := flats(p)
+		b, outB := flats(neg)
+		c.Stat("driver_tops_negated_pairs", 1)
+		for name, la := range a {
+			want := "-" + la
+			if strings.HasPrefix(la, "-") {
+				want = la[1:]
+			}
+			if la == "0" {
+				want = "0"
+			}
+			if b[name] != want {
+				return harness.Violation("%s: %s is printed as %q, and as %q in the report of the negated profile (expected %q: conversion and unit selection commute with negation)\n%s\n--- negated\n%s", desc, name, la, b[name], want, outA, outB)
+			}
+		}
+	}
 	out, ui, rr := drv.Report(map[string]*profile.Profile{"p": p}, []string{"p"}, map[string]bool{"top": true, "trim": false}, map[string]string{"unit": target}, nil, nil, nil)
 	if rr.Panic != "" {
 		return harness.Violation("%s: panic %s", desc, rr.Panic)
